@@ -560,8 +560,8 @@ def handle (fx : String → Bool) (line : String) : String :=
     String.intercalate " " (decls.map fun e =>
       let d := Layout.docOf idx e.1
       "doc=" ++ showTags d ++ ";comment=" ++ String.intercalate "," ((Layout.commentOf idx e.1).map hex))
-  | ["resolve", _, f, prog] =>
-    let fx := fx1
+  | ["resolve", f, prog] =>
+    let fx := if fx "F13a" then "1" else "0"
     let parseTy (c : Char) : Resolver.Ty :=
       if c == 'e' then ⟨"error".toList, true⟩ else if c == 's' then ⟨"string".toList, false⟩ else ⟨"int".toList, false⟩
     let parseExpr (t : String) : Resolver.Expr :=
